@@ -119,6 +119,11 @@ package sbom
 //@   ensures [C10:intersect:result] result != nil && fresh(result) && validNL(result)
 //@   ensures [C10:intersect:ids] forall x string :: (x in fieldset(result.Nodes, Id)) <==> ((x in fieldset(nl.Nodes, Id)) && (x in fieldset(nl2.Nodes, Id)))
 //@   ensures [C10:intersect:roots] forall r string :: (r in elems(result.RootElements)) <==> ((r in fieldset(result.Nodes, Id)) && ((r in elems(nl.RootElements)) || (r in elems(nl2.RootElements))))
+//@   ensures [C10:intersect:secondWins:Version] (uniqueIdx(nl) && uniqueIdx(nl2)) ==> (forall a int, i0 int, j int :: 0 <= a && a < len(result.Nodes) && 0 <= i0 && i0 < len(nl.Nodes) && 0 <= j && j < len(nl2.Nodes) && result.Nodes[a].Id == nl.Nodes[i0].Id && result.Nodes[a].Id == nl2.Nodes[j].Id ==> result.Nodes[a].Version == (nl2.Nodes[j].Version != "" ? nl2.Nodes[j].Version : nl.Nodes[i0].Version))
+//@   invariant L0: [C10:inv] (uniqueIdx(nl) && uniqueIdx(nl2)) ==> (forall a int, i0 int, j int :: 0 <= a && a < len(ret.Nodes) && 0 <= i0 && i0 < len(nl.Nodes) && 0 <= j && j < len(nl2.Nodes) && ret.Nodes[a].Id == nl.Nodes[i0].Id && ret.Nodes[a].Id == nl2.Nodes[j].Id ==> ret.Nodes[a].Version == (nl2.Nodes[j].Version != "" ? nl2.Nodes[j].Version : nl.Nodes[i0].Version))
+//@   invariant L0: [C10:inv] uniqueIdx(nl) ==> (forall i0 int :: 0 <= i0 && i0 < len(nl.Nodes) ==> (nl.Nodes[i0].Id in ni1) && ni1[nl.Nodes[i0].Id] == nl.Nodes[i0])
+//@   invariant L0: [C10:inv] uniqueIdx(nl2) ==> (forall j int :: 0 <= j && j < len(nl2.Nodes) ==> (nl2.Nodes[j].Id in ni2) && ni2[nl2.Nodes[j].Id] == nl2.Nodes[j])
+//@   invariant L0: [C10:inv] forall a int :: 0 <= a && a < len(ret.Nodes) ==> ret.Nodes[a] != nil && fresh(ret.Nodes[a])
 //@   ensures [C08:intersect:uniqueIds] forall i int, j int :: 0 <= i && i < j && j < len(result.Nodes) ==> result.Nodes[i].Id != result.Nodes[j].Id
 //@   ensures [C08:intersect:rootsClosed] closedRoots(result)
 //@   ensures [C08:intersect:edgesClosed] closedEdges(result)
